@@ -10,5 +10,60 @@ func extraRules() []*Rule {
 
 // extraSpecs contributes rules of those families to the properties.
 func extraSpecs() []*PropertySpec {
-	return nil
+	return []*PropertySpec{
+		{ID: "C01", Rules: []string{"APPLY-ORDER"},
+			Decided: "the apply loop fetches log[lastApplied+1] only while lastApplied < commitIndex, hands exactly that entry's index/term/data to the state machine and advances lastApplied by one"},
+		{ID: "C07", Rules: []string{"LEADER-APPEND"},
+			Decided: "a leader creates entries only at NextIndex() with its current term and appends a no-op of its term before its first send"},
+		{
+			ID:         "C03",
+			Rules:      []string{"LEADER-APPEND", "APPLY-ORDER", "LEADER-EXIT-RESET", "FUT-RESOLVE"},
+			Thorough:   []string{"OWNERS", "COMMIT-LEADER"},
+			Decided:    "futures of replicated operations are registered under the index of the very entry appended (after the append, same critical section, as leader), answered from that entry and the state machine's result for it, removed at lookup, and failed (tables emptied, manager replaced) on every exit from the leader role to a running role; every future is answered or registered with a responder on every path",
+			NotDecided: "linearizability of client histories, real-time order, at-most-once application (properties of histories; not decidable from the shape of the code)",
+		},
+		{
+			ID:         "C04",
+			Rules:      []string{"AE-HANDLER", "LEADER-APPEND", "SENDER", "COMMIT-LEADER", "QUORUM-SHAPE"},
+			Decided:    "leader: entry appended (error fatal) before the future is registered and before anything is sent; follower: every accepting return is preceded by Log.AppendEntries of a suffix of the request's entries; matchIndex is request.PrevLogIndex+len(entries) of the request sent, recorded only on Success from a member on a still-leader and reset on leader entry; commitment needs a strict majority of voters' matchIndex",
+			NotDecided: "what is physically on other nodes' disks at the instant of the acknowledgement (follows from the rules plus Raft's argument); durability of the bundled log itself is decided under C12",
+		},
+		{
+			ID:         "C10",
+			Rules:      []string{"SNAP-LABEL", "FSM-EXCL", "APPLY-RECHECK", "IS-HANDLER"},
+			Thorough:   []string{"APPLY-ORDER", "OWNERS"},
+			Decided:    "a local snapshot is labelled with index/term of log[lastApplied] and the committed configuration read in one critical section; Snapshot/Restore/replicated Apply must be mutually excluded by the node mutex from label read to return (two known findings D8, D9 on the pinned tree); the apply loop re-checks lastApplied after its unlocked Apply; on installation lastApplied/commitIndex move to the request's label only after Restore",
+			NotDecided: "the bytes of a snapshot; equality of restored and replayed state",
+		},
+		{
+			ID:         "C11",
+			Rules:      []string{"IS-HANDLER", "SENDER", "SNAP-LABEL", "OWNERS"},
+			Decided:    "the install handler writes nothing for a stale term, accepts only snapshots newer than the node's snapshot and applied state, writes a chunk only at the expected offset into the partial file of its own snapshot (one known finding D10), keeps the log suffix only behind the matching-boundary test re-validated after the wait, discards the log only after Restore; the sender reads its log only above the snapshot boundary",
+			NotDecided: "that commit/applied never move backwards across the Restore window (protocol argument); byte equality of transferred snapshots",
+		},
+		{
+			ID:         "C15",
+			Rules:      []string{"LEADER-APPEND", "AE-HANDLER", "SENDER"},
+			Decided:    "only necessary conditions of progress: a new leader appends a no-op of its term (so committedThisTerm can become true), every rejection carries the back-off hint and the leader uses it, the snapshot hand-shake advances only on Done at the expected offset and re-seeks otherwise",
+			NotDecided: "any bound, any 'eventually': liveness under a timing assumption is not decidable statically (observations O2, O4, O6 in DESIGN.md are liveness defects out of static reach)",
+		},
+		{
+			ID:         "C18",
+			Rules:      []string{"ENUM-SWITCH", "PANIC-SITES", "FATAL-IO", "WG-PARITY", "COND-PARITY", "FUT-NONBLOCK", "FUT-RESOLVE", "LOCK-PAIR"},
+			Decided:    "every switch over a module enum with a panicking default covers all declared constants; explicit panics only there; Fatal only on I/O errors; wait-group and condition-variable parity (every waiter is woken by Stop and re-tests Shutdown); respond never blocks, futures have capacity and a timeout arm; every future is answered or registered with a live responder; lock pairing, no double lock, no blocking send or wait-group wait under the mutex",
+			NotDecided: "implicit panics in general (nil/map/index), timeouts, invalid option values",
+		},
+		{
+			ID:         "C19",
+			Rules:      []string{"CONV-FIELDS", "CONV-GLUE", "CODEC-PAIR", "JSON-TAGS", "ENUM-CAST"},
+			Decided:    "the six message converters and the entry converter are field-for-field inverse of each other over all fields of the domain and protobuf structs; each RPC uses its own converters, client method and handler; the three storage codecs read back every field they write with the same length-prefix type and byte order; entry types cross wire and disk by plain numeric conversion; snapshot metadata JSON tags are present and distinct",
+			NotDecided: "protobuf-go and encoding/json themselves; []byte{} versus nil",
+		},
+		{
+			ID:         "C20",
+			Rules:      []string{"LOCKSET", "WINDOW-CLEAN", "LOCK-PAIR"},
+			Decided:    "every access to a field of Raft that is written after construction, to follower/operationManager/lease state, to the per-round counters and every call on the (not concurrency-safe) log, state and snapshot storage objects happens with the node mutex held, in every calling context; the same for the transport's and connection manager's guarded fields; unlock windows touch only locals, immutable fields and thread-safe objects",
+			NotDecided: "races inside user-supplied components, gRPC or the test scaffolding; lock identity is per field, not per object",
+		},
+	}
 }
